@@ -68,6 +68,9 @@ var verifC11ConfigKinds = map[string]string{
 	"ServiceDefaults":   structs.ServiceDefaults,
 	"IngressGateway":    structs.IngressGateway,
 	"ServiceIntentions": structs.ServiceIntentions,
+	"MeshConfig":        structs.MeshConfig,
+	"ExportedServices":  structs.ExportedServices,
+	"JWTProvider":       structs.JWTProvider,
 }
 
 func (q verifC11Q) configKind() string { return verifC11ConfigKinds[q.Topic] }
@@ -244,6 +247,11 @@ func verifC11Universe() []verifC11Q {
 		verifC11Q{Topic: "ServiceDefaults", Wild: true},
 		verifC11Q{Topic: "ServiceIntentions", Wild: true},
 		verifC11Q{Topic: "IngressGateway", Wild: true},
+		verifC11Q{Topic: "MeshConfig", Name: structs.MeshConfigMesh},
+		verifC11Q{Topic: "ExportedServices", Name: "default"},
+		verifC11Q{Topic: "ExportedServices", Wild: true},
+		verifC11Q{Topic: "JWTProvider", Name: "okta"},
+		verifC11Q{Topic: "JWTProvider", Wild: true},
 	)
 	return qs
 }
